@@ -350,11 +350,40 @@ def translate_fragment(src_text: str, spec: dict) -> str:
             raise TranslateError("kind=test needs exactly one while/if statement")
         body = tr.coerce(tr.expr(stmts[0].test), "bool")
         return f"Definition {spec['name']} {args} : bool :=\n  {body}.\n"
+    if spec.get("kind") == "subexpr":
+        # (additive) the unique sub-expression of the selected single statement whose unparsed
+        # text fully matches the regex spec["pick"]; outermost match when matches are nested
+        if len(stmts) != 1:
+            raise TranslateError("kind=subexpr needs exactly one statement")
+        hits = []
+
+        def _visit(node):
+            if isinstance(node, ast.expr) and re.fullmatch(spec["pick"], ast.unparse(node), re.S):
+                hits.append(node)
+                return
+            for ch in ast.iter_child_nodes(node):
+                _visit(ch)
+
+        _visit(stmts[0])
+        if len(hits) != 1:
+            raise TranslateError(f"pick pattern {spec['pick']!r} matched {len(hits)} sub-expressions")
+        body = tr.coerce(tr.expr(hits[0]), spec["ret"])
+        return f"Definition {spec['name']} {args} : {COQ_TY[spec['ret']]} :=\n  {body}.\n"
     if spec.get("kind") == "expr":
         # the right-hand side of the selected single assignment / return
         if len(stmts) != 1 or not isinstance(stmts[0], (ast.Assign, ast.Return, ast.AnnAssign)):
             raise TranslateError("kind=expr needs exactly one assignment/return")
-        body = tr.coerce(tr.expr(stmts[0].value), spec["ret"])
+        value = stmts[0].value
+        if spec.get("pick") == "listcomp_elt":
+            # additive option: the element expression of the unique list comprehension inside the
+            # right-hand side, e.g. np.array([(n + i) // k for i in range(k)]) -> (n + i) // k
+            comps = [x for x in ast.walk(value) if isinstance(x, ast.ListComp)]
+            if len(comps) != 1 or len(comps[0].generators) != 1 or comps[0].generators[0].ifs:
+                raise TranslateError("pick=listcomp_elt needs exactly one unconditional single-generator list comprehension")
+            value = comps[0].elt
+        elif spec.get("pick") is not None:
+            raise TranslateError(f"unknown pick {spec.get('pick')!r}")
+        body = tr.coerce(tr.expr(value), spec["ret"])
         return f"Definition {spec['name']} {args} : {COQ_TY[spec['ret']]} :=\n  {body}.\n"
     if "outputs" in spec:
         outs = [n for n, _ in spec["outputs"]]
